@@ -64,6 +64,9 @@ class Ctx:
         self.symbols = {}         # name -> z3 const (for model extraction)
         self.feas_unknown = 0
         self.byte_terms = set()
+        self.ufs = set()
+        self.len_terms = {}       # id -> length-like Int term (for small-model preference in counterexamples)
+        self.opaque_facts_done = set()
         self.soft = set()         # ids of facts tying z3 sequence lengths to tracked lengths (droppable in proofs)
         self.byte_origin = {}     # z3 ast id of a byte item -> (term, byte index) it was cut from
         self.cover = set()
@@ -101,6 +104,7 @@ class Ctx:
         self.symbols[str(n)] = n
         self.fact(n >= 0)
         self.couple(c, n)
+        self.len_terms[n.get_id()] = n
         return SeqPart(c, n)
 
     def couple(self, term, n):
@@ -110,8 +114,12 @@ class Ctx:
         else:
             f = z3.Implies(n <= self.COUPLE_MAX, z3.Length(term) == n)
         f = z3.simplify(f)
+        if z3.is_true(f) or f.get_id() in self.soft:
+            return
+        # only part of the obligations' hypotheses; the path-feasibility solver works without sequence-length
+        # coupling (an over-approximation of feasibility, which is sound: infeasible paths yield vacuous obligations)
         self.soft.add(f.get_id())
-        self.fact(f)
+        self.pc.append(f)
 
     # -- path condition ---------------------------------------------------------------------------
     def assume(self, cond):
